@@ -75,7 +75,7 @@ func C05_Update()        { focus = "C05"; sceneCtxMsg(opUpdate, cmOne) }
 func C05_Respond()       { focus = "C05"; sceneRespond(rsWide) }
 func C05_Withdraw()      { focus = "C05"; sceneWithdraw(wdQuick) }
 func C05_SetWithdraw()   { focus = "C05"; sceneSetWithdraw() }
-func C05_NewBatch()      { focus = "C05"; sceneNewBatch(nbOne) }
+func C05_NewBatch()      { focus = "C05"; sceneNewBatch(nbWide) }
 func C05_Call()          { focus = "C05"; sceneCall() }
 
 // C06 eligible providers, fee cap
@@ -366,3 +366,57 @@ func C05_TwoNewBatches()    { focus = "C05"; sceneTwoNewBatches() }
 
 // C18: every prefix scan behind a list query returns exactly the records of its subject
 func C18_Scans() { focus = "C18"; sceneQuery(qrQuick) }
+
+// C20: maximal numeric fields. The SDK's integers panic beyond 255 bits; a message may carry amounts and
+// prices up to that size, the state holds what a chain can hold.
+func C20_BindHuge()     { focus = "C20"; sceneBindingMsg(opBind, BindOpts{Huge: true}) }
+func C20_UpdateHuge()   { focus = "C20"; sceneBindingMsg(opUpdBinding, BindOpts{Huge: true}) }
+func C20_EnableHuge()   { focus = "C20"; sceneBindingMsg(opEnable, BindOpts{Huge: true}) }
+func C20_ExpiryHuge()   { focus = "C20"; o := exSlash; o.Huge = true; sceneExpiry(o) }
+func C20_NewBatchHuge() { focus = "C20"; o := nbWide; o.Huge = true; sceneNewBatch(o) }
+func C20_RespondHuge()  { focus = "C20"; o := rsOne; o.Huge = true; sceneRespond(o) }
+func C20_CallHuge()     { focus = "C20"; callHuge = true; sceneCall() }
+
+// ---- round-4 scenes
+func C01_Bind()          { focus = "C01"; sceneBindingMsg(opBind, bmPlain) }
+func C01_UpdateBinding() { focus = "C01"; sceneBindingMsg(opUpdBinding, bmPlain) }
+func C01_Enable()        { focus = "C01"; sceneBindingMsg(opEnable, bmPlain) }
+func C01_RefundDeposit() { focus = "C01"; sceneBindingMsg(opRefund, bmPlain) }
+func C15_UpdateDropsPromotions() {
+	focus = "C15"
+	sceneBindingMsg(opUpdBinding, BindOpts{NT: 1, NV: 1, MsgPlain: true})
+}
+func C07_UpdateDropsPromotions() {
+	focus = "C07"
+	sceneBindingMsg(opUpdBinding, BindOpts{NT: 1, NV: 1, MsgPlain: true})
+}
+func C05_Genesis() { focus = "C05"; sceneGenesis(gnQuick) }
+func C06_NewBatchAfterParamChange() {
+	focus = "C06"
+	o := nbWide
+	o.AnyDeposit = true
+	sceneNewBatch(o)
+}
+func C15_UpdateLoosePricing() {
+	focus = "C15"
+	sceneBindingMsg(opUpdBinding, BindOpts{NT: 1, NV: 1, MsgLoose: true})
+}
+func C15_BindLoosePricing() {
+	focus = "C15"
+	sceneBindingMsg(opBind, BindOpts{NT: 1, NV: 1, MsgLoose: true})
+}
+
+// ---- a call of a service registered by another module (answered inside the transaction)
+func C01_ModuleCall() { focus = "C01"; sceneModuleCall() }
+func C02_ModuleCall() { focus = "C02"; sceneModuleCall() }
+func C06_ModuleCall() { focus = "C06"; sceneModuleCall() }
+func C09_ModuleCall() { focus = "C09"; sceneModuleCall() }
+func C11_ModuleCall() { focus = "C11"; sceneModuleCall() }
+func C16_ModuleCall() { focus = "C16"; sceneModuleCall() }
+func C20_ModuleCall() { focus = "C20"; sceneModuleCall() }
+func C04_ModuleCall() { focus = "C04"; sceneModuleCall() }
+func C10_ModuleCall() { focus = "C10"; sceneModuleCall() }
+
+// C20: pricing texts with promotion windows (RFC 3339 admits year 0000)
+func C20_BindPromotions()   { focus = "C20"; sceneBindingMsg(opBind, BindOpts{NT: 1, NV: 1}) }
+func C20_UpdatePromotions() { focus = "C20"; sceneBindingMsg(opUpdBinding, BindOpts{NT: 1, NV: 1}) }
